@@ -213,26 +213,23 @@ def reorderAll (k : Kernel) : Kernel := k.liveEdges.foldl reorder k
 
 /-- hh:900-912 -/
 def enableVBU (k : Kernel) (b : Bool) : Kernel :=
-  let k := if b && !k.vBU then { k with outHes := k.computeVBU } else k
-  let k := if !b then { k with outHes := [] } else k
-  { k with vBU := b }
+  if b then (if k.vBU then k else { k with outHes := k.computeVBU, vBU := true })
+  else { k with outHes := [], vBU := false }
 
-/-- hh:914-934 -/
+/-- hh:914-934: recompute, then (if the face incidences exist) re-order every live edge -/
 def enableEBU (k : Kernel) (b : Bool) : Kernel :=
-  let k := if b && !k.eBU then
-      let k1 := { k with incHfs := k.computeEBU }
-      if k1.fBU then k1.reorderAll else k1
-    else k
-  let k := if !b then { k with incHfs := [] } else k
-  { k with eBU := b }
+  if b then
+    (if k.eBU then k else
+      { (if k.fBU then ({ k with incHfs := k.computeEBU }).reorderAll else { k with incHfs := k.computeEBU }) with eBU := true })
+  else { k with incHfs := [], eBU := false }
 
 /-- hh:936-959 -/
 def enableFBU (k : Kernel) (b : Bool) : Kernel :=
-  let upd := b && !k.fBU
-  let k := if upd then { k with incCell := k.computeFBU } else k
-  let k := if !b then { k with incCell := [] } else k
-  let k := { k with fBU := b }
-  if upd && k.eBU then k.reorderAll else k
+  if b then
+    (if k.fBU then k else
+      (if k.eBU then ({ k with incCell := k.computeFBU, fBU := true }).reorderAll
+       else { k with incCell := k.computeFBU, fBU := true }))
+  else { k with incCell := [], fBU := false }
 
 /-- hh:860-890.  `clearProps = true` additionally makes every storage private and
     non-persistent (`clear_all_props`); the storages stay tracked, so in both cases they are
